@@ -1266,7 +1266,13 @@ fn render_type_arguments(arguments: &[Type]) -> String {
 }
 
 fn render_tuple_type(tuple_type: &TupleType) -> String {
-    let name = tuple_type.name.clone().unwrap_or_default();
+    // A lowercase name is a type alias whose name (and fields, via the spread) the tuple inherits
+    // (`'event[..., at: 'int]`); it is written with its apostrophe, unlike a tuple name.
+    let name = match &tuple_type.name {
+        Some(name) if name.starts_with(|c: char| c.is_ascii_lowercase()) => format!("'{}", name),
+        Some(name) => name.clone(),
+        None => String::new(),
+    };
     if tuple_type.fields.is_empty() {
         return if tuple_type.is_partial {
             format!("{}()", name)
